@@ -31,6 +31,7 @@ type Options struct {
 	HeaderHandler bool `json:"header_handler,omitempty"`   // a secondary headers handler is installed, as the node manager does for every node it creates
 	NoSplits      bool `json:"no_split_table,omitempty"`   // the repository knows no chain split points (as on a network without any): its verify-only locator is empty
 	Universe      bool `json:"universe_headers,omitempty"` // proof-of-work checking off, so that the labelled header universe of verif/hdr can be submitted to the repository
+	SynthSplit    bool `json:"synthetic_split,omitempty"`  // the chain is identified by a split at height 2 (before: block 1, required after: block 2): with Preload the repository holds the headers its verification locator names, as a synchronised one does
 	ReadChunk     int  `json:"read_chunk,omitempty"`       // > 0: the node's reads return at most this many bytes (the stream arrives in pieces)
 }
 
@@ -202,6 +203,9 @@ func start(opt Options, with *Session) *Session {
 					panic("preload: " + err.Error())
 				}
 			}
+		}
+		if opt.SynthSplit {
+			repo.VerifSetSplits(nil, &headers.Split{Name: "synthetic", BeforeHash: *Block1.BlockHash(), AfterHash: *Block2.BlockHash(), Height: 2})
 		}
 		s.Headers = &SpyHeaders{Repository: repo}
 		s.Peers = &SpyPeers{StoragePeerRepository: bitcoin_reader.NewPeerRepository(store, "")}
